@@ -22,6 +22,7 @@ type NativeBuild struct {
 	PkgDir  string // repo-relative
 	Repo    string
 	BuildLog string
+	Deadline time.Duration // per-run deadline of RunSingle (default 150 s)
 }
 
 func goEnv() []string {
@@ -153,7 +154,7 @@ func (nb *NativeBuild) RunSingle(harness string, assign map[string]string, tier 
 	go func() { done <- cmd.Wait() }()
 	select {
 	case <-done:
-	case <-time.After(150 * time.Second):
+	case <-time.After(nb.deadline()):
 		cmd.Process.Kill()
 		return "timeout||", buf.String(), nil
 	}
@@ -168,6 +169,13 @@ func (nb *NativeBuild) RunSingle(harness string, assign map[string]string, tier 
 	}
 	// crashed hard (fatal error, os.Exit, unrecovered panic in another goroutine)
 	return "crash||", out, nil
+}
+
+func (nb *NativeBuild) deadline() time.Duration {
+	if nb.Deadline > 0 {
+		return nb.Deadline
+	}
+	return 150 * time.Second
 }
 
 type BatchCase struct {
